@@ -28,6 +28,7 @@ pub struct Ctx {
     pub only: Option<u64>,
     pub family: Option<String>,
     out: Box<dyn Write + Send>,
+    pub out_path: Option<String>,
     pub evaluations: u64,
     pub inconclusive: BTreeMap<String, u64>,
     pub hist: BTreeMap<String, u64>,
@@ -80,10 +81,9 @@ impl Ctx {
         s.push_str(&format!(",\"samples\":[{}]", sm.join(",")));
         let nt: Vec<String> = self.notes.iter().map(|x| jstr(x)).collect();
         s.push_str(&format!(",\"notes\":[{}]", nt.join(",")));
-        let mut d: Vec<u64> = self.distinct.iter().cloned().collect();
-        d.sort();
-        let ds: Vec<String> = d.iter().map(|x| format!("\"{:x}\"", x)).collect();
-        s.push_str(&format!(",\"distinct\":[{}]", ds.join(",")));
+        // the hashes of the distinct non-trivial cases go to a side file (8 bytes each) so that the supervisor can count the union
+        s.push_str(&format!(",\"distinct_count\":{}", self.distinct.len()));
+        if let Some(p) = &self.out_path { let mut bytes: Vec<u8> = Vec::with_capacity(self.distinct.len() * 8); for x in self.distinct.iter() { bytes.extend_from_slice(&x.to_le_bytes()); } let _ = std::fs::write(format!("{}.distinct", p), bytes); }
         s.push('}');
         self.line(&s);
     }
@@ -144,7 +144,7 @@ fn main() {
     let mut prop = args[1].clone();
     let mut ctx = Ctx {
         prop: String::new(), seed: 1, thorough: false, shard: 0, nshards: 1, start: 0, only: None, family: None,
-        out: Box::new(std::io::stdout()), evaluations: 0, inconclusive: BTreeMap::new(), hist: BTreeMap::new(), sigs: BTreeMap::new(),
+        out: Box::new(std::io::stdout()), out_path: None, evaluations: 0, inconclusive: BTreeMap::new(), hist: BTreeMap::new(), sigs: BTreeMap::new(),
         distinct: Default::default(), samples: vec![], max_steps: 0, notes: vec![],
     };
     let mut witness: Option<Vec<String>> = None;
@@ -172,7 +172,7 @@ fn main() {
             "--start" => { ctx.start = v.parse().unwrap(); i += 2; }
             "--only" => { ctx.only = Some(v.parse().unwrap()); i += 2; }
             "--family" => { ctx.family = Some(v); i += 2; }
-            "--out" => { ctx.out = Box::new(std::fs::OpenOptions::new().create(true).append(true).open(&v).expect("open out")); i += 2; }
+            "--out" => { ctx.out_path = Some(v.clone()); ctx.out = Box::new(std::fs::OpenOptions::new().create(true).append(true).open(&v).expect("open out")); i += 2; }
             _ => { eprintln!("unknown argument {}", a); std::process::exit(2); }
         }
     }
